@@ -8,8 +8,8 @@ RULE = ('the registered file transport in the harness process: forced: one sende
         'between obtaining the current writer and writing, the output file is renamed and SIGHUP delivered to the process '
         '(rotation placed exactly inside that window), then the sender is released; forced2: TWO such rotations while the same sender stands in the window; free: 2..32 goroutines sending distinct '
         'self-delimiting messages {id:len:xxxx} of 1..20000 bytes with separators "\\n", "" and "<|>" and 0..5 SIGHUP '
-        'rotations (with rename) at random moments; afterwards old + new files are parsed into units: every Send returned '
-        'nil, every id exactly once, nothing garbled. expected = the repaired model on the forced schedule (no error, nothing '
+        'rotations (with rename) at random moments, every second sender handing over consecutive sub-slices of ONE batch buffer it owns (the transport may not touch the memory behind a message); afterwards old + new files are parsed into units: every Send returned '
+        'nil, every id exactly once, nothing garbled, the batch buffers of the senders unchanged. expected = the repaired model on the forced schedule (no error, nothing '
         'missing). non-trivial = a run with a rotation while senders are active; distinct by parameters')
 TRUSTED = ['Coq 8.16.1 kernel (coqc)', 'extraction + ocaml/main.ml glue', 'Go harness harness/filet.go, verif hooks in transport/file, bin/engine.py',
            'modelled, not verified: transport/file/transport.go']
